@@ -94,6 +94,15 @@
         __CPROVER_loop_invariant((g_j < self->var->data_size && (g_j >= size || !V_NOTRO)) ==> V_DATA[g_j] == g_oldbyte) \
         __CPROVER_decreases(g_len - V_POS)
 
+/* dfcc makes function-local statics nondeterministic; the newline string is tied to the harness copy by
+ * an assumption which the obligation L0.get_new_line_chars (plain CBMC, real static initialiser,
+ * built with -DV_NO_CRLF_ASSUME) discharges */
+#ifdef V_NO_CRLF_ASSUME
+#define CAT_VERIF_GHOST_get_new_line_chars
+#else
+#define CAT_VERIF_GHOST_get_new_line_chars __CPROVER_assume(crlf == g_crlf);
+#endif
+
 /* placeholders (filled in below as each loop is brought under contract) */
 #define CAT_VERIF_LOOP_is_variables_access_possible
 #define CAT_VERIF_LOOP_cat_is_unsolicited_event_buffered
